@@ -22,7 +22,7 @@ BODY = {
 }
 Scripts are never stored as text: a fragment is an id expanded by vlib.scripts.recorder().
 """
-import os, copy, json, shutil
+import os, copy, json, shutil, zlib
 from hypothesis import strategies as st
 
 from . import scripts as S
@@ -135,7 +135,7 @@ def body_yaml(body, model, recipe_name):
             if sp.get(lst): out[step + key] = list(sp[lst])
     if body.get("checkoutDeterministic"): out["checkoutDeterministic"] = True
     if body.get("import"):
-        out["checkoutSCM"] = [{"scm": "import", "url": "src/" + recipe_name, "dir": "imp", "prune": True}]
+        out["checkoutSCM"] = [{"scm": "import", "url": "src/" + recipe_name, "dir": "imp", "prune": bool(body.get("importPrune", True))}]
     for k in ("buildNetAccess", "packageNetAccess", "jobServer"):
         if body.get(k) is not None: out[k] = body[k]
     if body.get("auditFiles"): out["packageAuditFiles"] = dict(body["auditFiles"])
@@ -196,6 +196,14 @@ def render(model, root, clock=None):
         except FileNotFoundError:
             pass
         os.makedirs(os.path.dirname(p) or root, exist_ok=True)
+        if rel.startswith("src/") and os.path.exists(p) and (zlib.crc32(("%s@%d" % (rel, clock)).encode()) & 1):
+            # edit in place (as many editors do): the mtime of the directory does not change
+            with open(p, "r+b") as f:
+                f.truncate(0)
+                f.write(data)
+            n += 1
+            os.utime(p, ns=(t + n * 10**7, t + n * 10**7))
+            continue
         tmp = p + ".tmp"
         with open(tmp, "wb") as f:
             f.write(data)
@@ -253,6 +261,8 @@ def _body(draw, fid, i, n, later_pkgs, tool_providers, classes, richness, dense=
     if has_checkout:
         b["checkoutDeterministic"] = draw(st.booleans())
     b["import"] = draw(st.integers(0, 3)) == 0
+    if b["import"]:
+        b["importPrune"] = draw(st.sampled_from([True, False, True]))
     if classes:
         b["inherit"] = draw(st.lists(st.sampled_from(sorted(classes)), max_size=2, unique=True))
     b["environment"] = _env_st(draw)
@@ -368,7 +378,7 @@ def model_st(min_recipes=2, max_recipes=7, richness=1, multi=True, dense=False):
         files = {}
         for i in range(n):
             if recipes[i]["body"]["import"]:
-                for fn in draw(st.lists(st.sampled_from(["a.txt", "b.txt", "sub/c.txt"]), min_size=1, max_size=3, unique=True)):
+                for fn in draw(st.lists(st.sampled_from(["a.txt", "sub/c.txt", "b.txt", "sub/deep/d.txt"]), min_size=1, max_size=3, unique=True)):
                     files["r%d/%s" % (i, fn)] = "content %d\n" % fid()
         inc, fraginc = {}, {}
         if richness > 0 and draw(st.integers(0, 2)) == 0:
@@ -559,6 +569,9 @@ def apply_edit(model, edit, history):
         if not mine: return m, "noop"
         fn = mine[b % len(mine)]
         if kind == "file_del":
+            owner = next(r for r in m["recipes"] if r["name"] == rn)
+            if not owner["body"].get("importPrune", True):
+                return m, "noop"            # without prune deleted files legitimately stay in the workspace
             del m["files"][fn]
             return m, "delete %s" % fn
         # same size rewrite or different size
@@ -592,11 +605,19 @@ def apply_edit(model, edit, history):
         old = copy.deepcopy(history[a % len(history)])
         old["clock"] = m["clock"]
         old["nextfid"] = max(old.get("nextfid", 0), m.get("nextfid", 0))
+        # an import without prune never removes files from the workspace: the reverted state keeps them
+        keep = {r["name"] for r in old["recipes"] if r["body"].get("import") and not r["body"].get("importPrune", True)}
+        for fn, txt in m["files"].items():
+            if fn.split("/")[0] in keep and fn not in old["files"]:
+                old["files"][fn] = txt
         return old, "revert to state %d" % (a % len(history))
     raise AssertionError(kind)
 
 I = st.integers(0, 30)
 edit_st = st.tuples(st.sampled_from(EDIT_KINDS), I, I, I, I).map(list)
+# histories for checks that build: source edits (in place, in sub-directories) are what users do most
+src_edit_st = st.tuples(st.sampled_from(["file_mod", "file_mod", "file_mod", "file_add", "file_del"]), I, I, I, I).map(list)
+build_edit_st = st.one_of(edit_st, edit_st, src_edit_st)
 
 def apply_history(model, edits):
     """-> list of (model, description) after each edit"""
